@@ -1,11 +1,179 @@
-import Ivg.Model.Decoder
-import Ivg.Model.Arc
-import Ivg.Model.MdIcons
+import Ivg.Lemmas.SpecMeta
 import Ivg.Gen.Tie.DrawOps
 import Ivg.Gen.Tie.DecodeErrors
 import Ivg.Gen.Tie.Magic
+import Ivg.Gen.Tie.Dc1
+import Ivg.Gen.Tie.Mids
+import Ivg.Gen.Tie.DefaultViewBox
 import Ivg.Obligations
-/-! # Property C03 — theorems (work in progress: tie obligations only so far) -/
+/-!
+# C03 — decoding implements the IconVG FFV0 byte grammar, exactly
+
+Property text: "Decoding accepts exactly the byte strings that are well formed under the IconVG FFV0
+specification (magic, metadata chunks with consistent lengths, styling and drawing opcodes with complete
+operands, no reserved opcodes) and, for every accepted string, delivers exactly the operation sequence
+the specification assigns to it: opcode to operation, ADJ and post-increment variants, repeat counts
+1..16/32, operand kinds, widths and values (natural, real, coordinate, zero-to-one, 1/2/3/4-byte and
+blended colours), arc flag bits, and the switches between styling and drawing mode."
+
+"The specification" is the independent reference parser `Ivg.Spec.FFV0` (`Ivg/Spec/FFV0.lean`), written
+from `/repo/spec/iconvg-spec-v0.md`: opcode TABLES transcribed from the bullets of "Styling Opcodes" and
+"Drawing Opcodes", number forms as RATIONALS rounded once to float32, colour forms, metadata framing.
+It shares no code with the decoder model.  The theorems are about the executable model
+(`Ivg.Dec.decode`, `Ivg.Dec.stepDec`, `Ivg.Dec.decodeNatural`, …), tied to /repo by the differential
+suite and by the `Ivg.Gen.Tie.*` facts listed at the end.
+
+All statements are for ALL byte strings, without hypotheses, except `calls_eq` (its hypothesis is
+exhibited by the examples below).
+-/
 namespace Ivg.Props.C03
+open Ivg Num Dec
+open Ivg.Spec
+open Ivg.SpecL (dm Agrees colorDec numberDec stylingClass drawingClass okChunks toMeta)
+
+/-! ## headline -/
+
+/-- Clause "Decoding accepts exactly the byte strings that are well formed under the specification":
+    `Decode` (no options) reports no error iff the specification parser accepts the string. -/
+theorem accepts_iff (bs : Bytes) : (Dec.decode [] bs).2 = none ↔ (FFV0.parse bs).isSome :=
+  SpecL.accepts_iff bs
+
+/-- Clause "for every accepted string, delivers exactly the operation sequence the specification
+    assigns to it" (starting with `Reset(viewBox, palette)`). -/
+theorem calls_eq (bs : Bytes) (cs : List (Call F32)) (h : FFV0.parse bs = some cs) :
+    (Dec.decode [] bs).1 = cs := SpecL.calls_eq bs cs h
+
+/-- Both clauses in one statement: accepted ⇒ exactly the spec's calls and no error; rejected ⇒ error. -/
+theorem decode_eq_spec (bs : Bytes) :
+    match FFV0.parse bs with
+    | some cs => Dec.decode [] bs = (cs, none)
+    | none => (Dec.decode [] bs).2 ≠ none := SpecL.decode_eq_spec bs
+
+/-! ## layers (each for all byte strings / all opcodes) -/
+
+/-- Clause "operand … widths and values (natural …)": value, width (1, 2, 4) and rest. -/
+theorem natural_eq (b : Bytes) : FFV0.natural b = Dec.decodeNatural b := SpecL.natural_eq b
+
+/-- Clause "… values (… real …)": 1/2-byte forms are the float32 nearest to the natural, the 4-byte
+    form is the reinterpreted bit pattern. -/
+theorem real_eq (b : Bytes) : FFV0.real b = Dec.decodeReal b := SpecL.real_eq b
+
+/-- Clause "… values (… coordinate …)": `R − 64`, `R/64 − 128` correctly rounded, 4-byte as real. -/
+theorem coordinate_eq (b : Bytes) : FFV0.coordinate b = Dec.decodeCoordinate b := SpecL.coordinate_eq b
+
+/-- Clause "… values (… zero-to-one …)": `float32(R)/120` and `float32(R)/15120` as the decoder
+    computes them are the float32 values nearest to the rationals `R/120`, `R/15120`. -/
+theorem zeroToOne_eq (b : Bytes) : FFV0.zeroToOne b = Dec.decodeZeroToOne b := SpecL.zeroToOne_eq b
+
+/-- Clause "… 1/2/3/4-byte and blended colours": each colour form of the spec is the model decoder
+    `colorDec form` (= `decodeColor1/2/3Direct/4/3Indirect`). -/
+theorem color_eq (form : FFV0.ColorForm) (b : Bytes) : FFV0.color form b = colorDec form b :=
+  SpecL.color_eq form b
+
+/-- Clause "opcode to operation, ADJ and post-increment variants … no reserved opcodes", styling mode:
+    for all 256 opcodes the table lookup equals the classification `decodeStyling`'s comparison chain
+    makes (`stylingClass`: same conditions, masks and shifts as the model), `none` = reserved. -/
+theorem styling_dispatch (op : UInt8) : FFV0.lookup FFV0.stylingTable op.toNat = stylingClass op :=
+  SpecL.styling_dispatch op
+
+/-- … drawing mode, incl. "repeat counts 1..16/32": `op − lo + 1` vs `1 + (op & 0x1f / 0x0f)`. -/
+theorem drawing_dispatch (op : UInt8) : FFV0.lookup FFV0.drawingTable op.toNat = drawingClass op :=
+  SpecL.drawing_dispatch op
+
+/-- Clauses "styling and drawing opcodes with complete operands", "operand kinds", "arc flag bits",
+    "switches between styling and drawing mode": in either mode, for every byte string, the model's
+    one-instruction step rejects iff the spec does, and otherwise yields the same calls, next mode and
+    remaining bytes (`Agrees`). -/
+theorem instruction_eq (m : FFV0.Mode) (b : Bytes) : Agrees (stepDec (dm m) b) (FFV0.instruction m b) :=
+  SpecL.instruction_eq m b
+
+/-- The instruction loop (spec fuel larger than the input; the model's loop with its canonical fuel). -/
+theorem instructions_eq (fuel : Nat) (m : FFV0.Mode) (b : Bytes) (h : b.length < fuel) :
+    match FFV0.instructions fuel m b with
+    | some cs => (DecL.run (dm m) b).2 = none ∧ callsOf (DecL.run (dm m) b).1 = cs
+    | none => (DecL.run (dm m) b).2 ≠ none := SpecL.instructions_eq fuel m b h
+
+/-- Clause "metadata chunks with consistent lengths" (also: increasing MIDs, none repeated, only MIDs 0
+    and 1, viewBox validity, palette entries): the chunk loops agree on acceptance, metadata, rest. -/
+theorem chunks_eq (fuel n : Nat) (m : Metadata) (mm : Nat) (b : Bytes) :
+    okChunks (decodeChunks fuel n m mm b).2 = FFV0.chunks fuel n (toMeta m) mm b :=
+  SpecL.chunks_eq fuel n m mm b
+
+/-! ## non-vacuity -/
+
+/-- `/repo/testdata/action-info.lores.ivg` (63 bytes: viewBox chunk, C/s/S curves with repeat counts,
+    z-m, h, V, v, closeEnd) -/
+def actionInfoLores : Bytes := [
+  0x89, 0x49, 0x56, 0x47, 0x02, 0x0a, 0x00, 0x50, 0x50, 0xb0, 0xb0, 0xc0,
+  0x80, 0x58, 0xa0, 0xf5, 0x74, 0x58, 0x58, 0xf5, 0x74, 0x58, 0x80, 0x91,
+  0xf5, 0x88, 0xa8, 0xa8, 0xa8, 0xa8, 0x0d, 0x77, 0xa8, 0x58, 0x80, 0x0d,
+  0x8b, 0x58, 0x80, 0x58, 0xe3, 0x84, 0xbc, 0xe7, 0x78, 0xe8, 0x7c, 0xe7,
+  0x88, 0xe9, 0x98, 0xe3, 0x80, 0x60, 0xe7, 0x78, 0xe9, 0x78, 0xe7, 0x88,
+  0xe9, 0x88, 0xe1]
+
+set_option maxRecDepth 100000 in
+/-- the specification accepts a real multi-instruction icon; 17 operations -/
+example : (FFV0.parse actionInfoLores).map List.length = some 17 := by decide +kernel
+
+set_option maxRecDepth 100000 in
+/-- an instance of the hypothesis of `calls_eq`, with explicit values: default metadata, a path start
+    (1-byte coordinates 0 and −20), a relative horizontal line (−4), close-and-end -/
+example : FFV0.parse [0x89, 0x49, 0x56, 0x47, 0x00, 0xc0, 0x80, 0x58, 0xe7, 0x78, 0xe1] =
+    some [.reset defaultViewBox defaultPalette, .startPath 0 ⟨0⟩ (F32.ofInt (-20)),
+          .d1 .h (F32.ofInt (-4)), .closeEnd] := by decide +kernel
+
+set_option maxRecDepth 100000 in
+/-- an arc: 2-byte-free operands, angle `5/120` (1-byte zero-to-one), flags `2` = sweep only -/
+example : FFV0.parse [0x89, 0x49, 0x56, 0x47, 0x00, 0xc0, 0x80, 0x80, 0xc0, 0x90, 0x90, 0x0a, 0x04,
+      0xa0, 0xa0, 0xe1] =
+    some [.reset defaultViewBox defaultPalette, .startPath 0 ⟨0⟩ ⟨0⟩,
+          .arc false (F32.ofInt 8) (F32.ofInt 8) (F32.ofRatio false 5 120) false true
+            (F32.ofInt 16) (F32.ofInt 16), .closeEnd] := by decide +kernel
+
+set_option maxRecDepth 100000 in
+/-- rejected: reserved styling opcode 0xc8; reserved drawing opcode 0xe0; truncated operand (one of
+    two coordinates); repeated MID 0; declared chunk length 6 ≠ actual 5; undefined MID 2 -/
+example :
+    FFV0.parse [0x89, 0x49, 0x56, 0x47, 0x00, 0xc8] = none ∧
+    FFV0.parse [0x89, 0x49, 0x56, 0x47, 0x00, 0xc0, 0x80, 0x80, 0xe0] = none ∧
+    FFV0.parse [0x89, 0x49, 0x56, 0x47, 0x00, 0xc0, 0x80] = none ∧
+    FFV0.parse [0x89, 0x49, 0x56, 0x47, 0x04, 0x0a, 0x00, 0x50, 0x50, 0xb0, 0xb0,
+                0x0a, 0x00, 0x50, 0x50, 0xb0, 0xb0] = none ∧
+    FFV0.parse [0x89, 0x49, 0x56, 0x47, 0x02, 0x0c, 0x00, 0x50, 0x50, 0xb0, 0xb0] = none ∧
+    FFV0.parse [0x89, 0x49, 0x56, 0x47, 0x02, 0x02, 0x04] = none := by decide +kernel
+
+set_option maxRecDepth 100000 in
+/-- … while the same viewBox chunk with the right length is accepted -/
+example : (FFV0.parse [0x89, 0x49, 0x56, 0x47, 0x02, 0x0a, 0x00, 0x50, 0x50, 0xb0, 0xb0]).isSome = true := by
+  decide +kernel
+
+/-- `instructions_eq`: an instance of its hypothesis -/
+example : ([0xc0, 0x80, 0x58, 0xe1] : Bytes).length < 5 := by decide
+
+/-!
+## Not proved in this file / remarks
+
+* Nothing of the property text is left out: acceptance and delivered sequence are settled for all byte
+  strings by `decode_eq_spec` (= `accepts_iff` + `calls_eq`).
+* How the zero-to-one clause is proved: `float32(u)/120 = nearest(u/120)` (`u < 128`) and
+  `float32(u)/15120 = nearest(u/15120)` (`u < 16384`) are established by kernel evaluation of both
+  sides over the whole finite domain (`Ivg/Lemmas/SpecZ2Oa…d.lean`, 1024 values per declaration,
+  `decide +kernel`, no `native_decide`), not by a general lemma about `roundPack` under rescaling.
+  The integer and `/64` forms (real, coordinate) are proved structurally (`SpecL.ofRatio_pow2`).
+* `Decode` with options (`WithPalette`, `WithColorAt`) is outside C03 (see C04).
+* What "the specification" leaves open and `FFV0` (like the Go code) decides: a metadata chunk with a
+  MID other than 0 or 1 is rejected (the text defines only MIDs 0 and 1 and does not say whether unknown
+  MIDs may be skipped), witness `89 49 56 47 02 02 04`; a suggested-palette entry that is not a valid
+  alpha-premultiplied colour resolves to opaque black; a stream may end in drawing mode.
+-/
+
 end Ivg.Props.C03
-#obligations C03 [Ivg.Gen.Tie.drawOps_tie, Ivg.Gen.Tie.magic_tie, Ivg.Gen.Tie.decodeErrors_tie]
+
+#obligations C03 [
+  Ivg.Props.C03.accepts_iff, Ivg.Props.C03.calls_eq, Ivg.Props.C03.decode_eq_spec,
+  Ivg.Props.C03.natural_eq, Ivg.Props.C03.real_eq, Ivg.Props.C03.coordinate_eq,
+  Ivg.Props.C03.zeroToOne_eq, Ivg.Props.C03.color_eq,
+  Ivg.Props.C03.styling_dispatch, Ivg.Props.C03.drawing_dispatch,
+  Ivg.Props.C03.instruction_eq, Ivg.Props.C03.instructions_eq, Ivg.Props.C03.chunks_eq,
+  Ivg.Gen.Tie.drawOps_tie, Ivg.Gen.Tie.magic_tie, Ivg.Gen.Tie.dc1Table_tie, Ivg.Gen.Tie.mids_tie,
+  Ivg.Gen.Tie.defaultViewBox_tie, Ivg.Gen.Tie.decodeErrors_tie]
